@@ -21,7 +21,7 @@ COMMON_NOTE = (
 claim(
     "C03",
     "Lean 4 proof (Finset-sum / bit-level induction) of the loop nest = U⊗I matrix-vector product; exact differential correspondence with the real emulator",
-    "Theorems C03_applyGate_eq_embed, C03_state(_vec/_GD), C03_idle, C03_identity, C03_embed_comm, C03_interleave prove, for every register size, every gate matrix over any commutative semiring, every ordered tuple of distinct qubits and every gate list, that the emulator's bit-twiddling loop nest computes the little-endian embedded matrix product in execution order, that gates without unitary are no-ops and that any interleaving of parallel branches on disjoint qubits gives the same state. Over the WHOLE RUN (Props/C03Run.lean, Lemmas/RunMeaning.lean): C03_run_total proves with no hypothesis that whenever runModel cfg ov txt returns a summary, the source program (subcircuit blocks spelled out) has a gate-level meaning under the overrides (Spec/Sem.lean: lets and overrides applied, macros expanded by substitution, every qubit resolved through its alias chain) and the summary — per subcircuit the serialised gates with their resolved qubits and numbers, the visit sequence, the subcircuit count — is exactly specSummary of that meaning tree, a function of the specification alone; C03_run_table / C03_run_args (every qubit and number the emulator uses is the specification's), C03_run_shape (the walker skeleton unrolls to the meaning's unrolled gate applications), C03_run_traces / C03_run_summary, C03_run_meaning(_raw/_source), C03_run_text are the steps. Together with C03_state this is the property's sentence end to end: the gates multiplied for a subcircuit are the unrolled meaning of the program. C03_embed_unitary / C03_applyGate_norm / C03_norm_preserved (Props/C03Unitary.lean, any commutative star ring): embedding a unitary gate matrix on any ordered tuple of distinct qubits gives a unitary on the register, the loop nest preserves the norm, and the state computed from unitary gates has norm one — hence (C15_probabilities, over ℂ; C15_probabilities_GD for the executable Gaussian-dyadic program) the outcome probabilities are non-negative and sum to one before any renormalisation. The executable model is tied to /repo by exact (Gaussian-dyadic) state-vector comparison on generated programs run through the real emulator, plus direct oracles (numpy kron reference, alias-vs-direct, idle no-op, branch order, let override).",
+    "Theorems C03_applyGate_eq_embed, C03_state(_vec/_GD), C03_idle, C03_identity, C03_embed_comm, C03_interleave prove, for every register size, every gate matrix over any commutative semiring, every ordered tuple of distinct qubits and every gate list, that the emulator's bit-twiddling loop nest computes the little-endian embedded matrix product in execution order, that gates without unitary are no-ops and that any interleaving of parallel branches on disjoint qubits gives the same state. Over the WHOLE RUN (Props/C03Run.lean, Lemmas/RunMeaning.lean): C03_run_total proves with no hypothesis that whenever runModel cfg ov txt returns a summary, the source program (subcircuit blocks spelled out) has a gate-level meaning under the overrides (Spec/Sem.lean: lets and overrides applied, macros expanded by substitution, every qubit resolved through its alias chain) and the summary — per subcircuit the serialised gates with their resolved qubits and numbers, the visit sequence, the subcircuit count — is exactly specSummary of that meaning tree, a function of the specification alone; C03_run_table / C03_run_args (every qubit and number the emulator uses is the specification's), C03_run_shape (the walker skeleton unrolls to the meaning's unrolled gate applications), C03_run_traces / C03_run_summary, C03_run_meaning(_raw/_source), C03_run_text are the steps. Together with C03_state this is the property's sentence end to end: the gates multiplied for a subcircuit are the unrolled meaning of the program. Props/C03End.lean draws the corollaries: C03_run_state / C03_run_state_norm (for every gate-matrix interpretation over any commutative semiring, the state the loop nests compute for subcircuit k from the run's own gate list equals U_j … U_1 |0…0⟩ with every U_j embedded on the qubits the SPECIFICATION resolves — under the decidable AppOK: distinct in-range qubits per gate — and has norm one for unitary matrices), C03_run_same_meaning(_total) (two programs with the same spelled-out meaning tree report the same summary), C08_run_let_run / C08_run_let_like_literal (a program and its image under fill_in_let — lets written as literals — run to the same result, errors included), C12_run_brackets_meaning and C08_run_visits_meaning (the number of subcircuits is the number of prepare/measure pairs of the meaning's flat gate names, the visits are those of its unrolled skeleton). C03_embed_unitary / C03_applyGate_norm / C03_norm_preserved (Props/C03Unitary.lean, any commutative star ring): embedding a unitary gate matrix on any ordered tuple of distinct qubits gives a unitary on the register, the loop nest preserves the norm, and the state computed from unitary gates has norm one — hence (C15_probabilities, over ℂ; C15_probabilities_GD for the executable Gaussian-dyadic program) the outcome probabilities are non-negative and sum to one before any renormalisation. The executable model is tied to /repo by exact (Gaussian-dyadic) state-vector comparison on generated programs run through the real emulator, plus direct oracles (numpy kron reference, alias-vs-direct, idle no-op, branch order, let override).",
     COMMON_NOTE + "Modelled, not verified: the Python loop nest is transcribed by hand; IEEE rounding for non-dyadic matrices is outside the model; trace serialisation and the passes are covered by C08/C12 and C04–C06/C09.",
     "DESIGN.md §7 C03",
 )
@@ -44,13 +44,13 @@ claim(
     "C12",
     "Lean 4 proof (two-way simulation between the visitor's bookkeeping and a declarative bracket automaton); differential correspondence with DiscoverSubcircuits",
     "Theorems C12_iff, C12_count, C12_errors(_loop) and, over the whole run model with subcircuit blocks, lets and MACROS EXPANDED, C12_run_accept / C12_run_reject prove for every nesting of blocks and loops (any depth, any counts incl. 0) that subcircuit discovery accepts exactly the programs whose flat token sequence is well-bracketed per the property text (a subcircuit is open at every gate, every measure follows a prepare, no repeating loop closes a subcircuit that was open when its body began), that the traces are exactly the prepare/measure pairs in flat order (trailing prepare yields none, a repeated prepare discards the earlier opening), and that each rejection class names the violated rule.",
-    COMMON_NOTE + "The walker theorems are about the skeleton (prepare | measure | other gate, block, loop) of the expanded circuit; C12_run_accept / _reject (Props/C12Run.lean) connect them to RunModel.runCircuit — a result is produced only if the flat token list of the expanded program is well-bracketed, with one subcircuit per pair, and a program that is not is refused with the JaqalError of a bracket rule; macro expansion itself is C04, the disjointness check C13; reading of the English rule as stated in the evidence assumptions.",
+    COMMON_NOTE + "C12_run_brackets_meaning (Props/C03End.lean) lifts this to the program AS WRITTEN: whenever the run returns a result, the flat token list read off the MEANING tree of the source program (Spec/Sem.lean; lets, overrides and macros resolved by the specification, not by the passes) is Bracketed and the number of subcircuits is the number of its prepare/measure pairs — a pure count on the meaning's flat gate names. The walker theorems are about the skeleton (prepare | measure | other gate, block, loop) of the expanded circuit; C12_run_accept / _reject (Props/C12Run.lean) connect them to RunModel.runCircuit — a result is produced only if the flat token list of the expanded program is well-bracketed, with one subcircuit per pair, and a program that is not is refused with the JaqalError of a bracket rule; macro expansion itself is C04, the disjointness check C13; reading of the English rule as stated in the evidence assumptions.",
     "DESIGN.md §7 C12",
 )
 claim(
     "C08",
     "Lean 4 proof (refinement of the fuel-indexed walker to a tree-recursive specification, explicit fuel bound) + differential correspondence with run_jaqal_circuit / parse_jaqal_output_list under an alarm",
-    "Theorems C08_terminates, C08_order, C08_unroll, C08_zero, C08_indices (and C03_serialize for the per-trace gate list), lifted to the whole run model (subcircuit blocks, lets and macros expanded first) by C08_run_visits / C08_run_never_hangs, prove for every accepted nesting that the trace walker terminates within an explicit fuel bound, emits exactly the subcircuit visits of the unrolled program in order (a visit = executing the gate at which the trace starts), that loops with count ≤ 0 contribute none while their subcircuits stay numbered, and that readout indices are 0,1,2,… with per-subcircuit counts equal to occurrences. The hardware-output parser is modelled end to end (Model/OutputList.lean: parse_jaqal_output_list = the same expansion, discovery and walk, consuming one output per visit) and Props/C08Outputs.lean proves, for every circuit and every output list: C08_outputs_one_per_visit (the subcircuit indices of the readouts are exactly the visit sequence of the unrolled program, readout indices 0,1,2,…, the j-th value is the j-th output), C08_outputs_like_emulator (same visits and subcircuit count as the emulator run), C08_outputs_short(_never_ok) (too few outputs ⇒ JaqalError), C08_outputs_extra_ignored(_all), C08_outputs_freq(_nonneg) (each table entry counts the subcircuit's own readouts of that value; a table's total is the number of its visits), C15_outputs_same / _value / _forms (an integer and its n-character bit string are interchangeable entry by entry), C09_outputs_exec (the spelled-out program is reported identically). Direct oracles on the real code add: let-valued and overridden loop counts behave like literals, hardware output lists are consumed in visit order, sampled outcomes have non-zero probability, relative frequencies count own readouts.",
+    "Theorems C08_terminates, C08_order, C08_unroll, C08_zero, C08_indices (and C03_serialize for the per-trace gate list), lifted to the whole run model (subcircuit blocks, lets and macros expanded first) by C08_run_visits / C08_run_never_hangs, and from there to the program as written (Props/C03End.lean: C08_run_visits_meaning — the visits are a function of the program's meaning tree —, C08_run_let_run / C08_run_let_like_literal — loop counts given by (overridden) lets behave like literals: the program and its fill_in_let image run to the same result), prove for every accepted nesting that the trace walker terminates within an explicit fuel bound, emits exactly the subcircuit visits of the unrolled program in order (a visit = executing the gate at which the trace starts), that loops with count ≤ 0 contribute none while their subcircuits stay numbered, and that readout indices are 0,1,2,… with per-subcircuit counts equal to occurrences. The hardware-output parser is modelled end to end (Model/OutputList.lean: parse_jaqal_output_list = the same expansion, discovery and walk, consuming one output per visit) and Props/C08Outputs.lean proves, for every circuit and every output list: C08_outputs_one_per_visit (the subcircuit indices of the readouts are exactly the visit sequence of the unrolled program, readout indices 0,1,2,…, the j-th value is the j-th output), C08_outputs_like_emulator (same visits and subcircuit count as the emulator run), C08_outputs_short(_never_ok) (too few outputs ⇒ JaqalError), C08_outputs_extra_ignored(_all), C08_outputs_freq(_nonneg) (each table entry counts the subcircuit's own readouts of that value; a table's total is the number of its visits), C15_outputs_same / _value / _forms (an integer and its n-character bit string are interchangeable entry by entry), C09_outputs_exec (the spelled-out program is reported identically). Direct oracles on the real code add: let-valued and overridden loop counts behave like literals, hardware output lists are consumed in visit order, sampled outcomes have non-zero probability, relative frequencies count own readouts.",
     COMMON_NOTE + "numpy.random.choice is an external oracle (checked per readout, not proved); the real code is run under a 5–10 s alarm, a timeout is a failure.",
     "DESIGN.md §7 C08",
 )
